@@ -93,6 +93,8 @@ type SetSys[T comparable] struct {
 	N   int
 	// NoCtor: do not offer the variadic-constructor operations (jobs whose alphabet is reduced on purpose)
 	NoCtor bool
+	// NoJSON: no FromJSON operations (pointer elements: a load creates new identities)
+	NoJSON bool
 }
 
 func (s *SetSys[T]) Name() string {
@@ -288,7 +290,7 @@ func (b *setBox[T]) Ops() []Op {
 	for ti := range b.sys.Tuples {
 		ops = append(ops, op("Remove", ti))
 	}
-	if !b.sys.NoCtor {
+	if !b.sys.NoCtor && !b.sys.NoJSON {
 		// a loaded set is a start state too: FromJSON of the arrays with repeated elements (the (x,y,x)
 		// and (x,x) tuples), of [] and of null - the set must deduplicate like Add does
 		for ti, t := range b.sys.Tuples {
